@@ -135,7 +135,8 @@ CONC = {
     'C07': dict(module='Properties.C07', file='Properties/C07.v', slices=['resp', 'job'],
                 families=['burst', 'batch', 'cancel', 'lifecycle'],
                 quick_episodes=300, thorough_episodes=4000,
-                rule=SLICE_JOB_RULE + '; per single error / result job the channel operations on its response are projected onto coq/SliceResp.v (send, close, receives with payload digests) and replayed; '
+                native=dict(scenarios=['outcomes'], rounds=1, thorough_rounds=1),
+                rule=SLICE_JOB_RULE + '; native mode: 700 jobs with value / error / panic(int) / panic(struct) / panic([]byte) outcomes on error, result and plain workers at concurrency 4..6 under real parallelism, every handle read twice; per single error / result job the channel operations on its response are projected onto coq/SliceResp.v (send, close, receives with payload digests) and replayed; '
                      'outcomes (value / error / panic) are assigned at random per job, all three worker kinds, concurrency 1..4; every Result() / Err() return and every batch stream element is compared with a pure function '
                      'of the job\'s data, Metrics.Failed / Successful with the outcome counts',
                 trusted_base=TB_CONC,
@@ -229,4 +230,16 @@ CONC = {
                 quick_episodes=350, thorough_episodes=4000,
                 rule=SLICE_JOB_RULE, trusted_base=TB_CONC,
                 assumptions=['jobs rebuilt by parseToJob from stored entries have no handle; their status word starts from whatever the entry says']),
+    'C18': dict(module='Properties.C18', file='Properties/C18.v', slices=['pool'],
+                families=['pool', 'lifecycle', 'lifeseq', 'burst', 'saturate'],
+                quick_episodes=300, thorough_episodes=4000,
+                rule='episodes = scenario programs run under the controlled scheduler on the instrumented library (see C01); per pool node the log is projected onto coq/SlicePool.v '
+                     '(creation + server spawn, PushNode, PopBack / successful Remove, job and stop payloads sent and received, Cache.Put) and replayed on the extracted model; family pool: '
+                     'TunePool sequences under load, idle expiry with ticks racing dispatch (virtual time), min-idle ratios 1..100, Stop / Restart cycles with and without a context; monitors: '
+                     'pool goroutines alive at once <= largest concurrency configured + 1, idle workers <= configured minimum after the expiry elapsed, >= 1 idle worker at rest while running, '
+                     'no library goroutine alive after Stop returned and the system came to rest (exact, from the scheduler); distinct_nontrivial = distinct schedule hashes',
+                trusted_base=TB_CONC,
+                assumptions=['"idle that long" is virtual time (the scheduler advances the clock to the next ticker deadline)',
+                             'the bound on the number of nodes in service (<= limit + 1) follows from C02 (a node is created only under a reservation) and is monitored, not a theorem of the per-node model',
+                             'event loop, reaper and context listener goroutines exiting after Stop: monitored (exact list of live goroutines at rest)']),
 }
